@@ -322,6 +322,10 @@ class ClosureEval(CaseEval):
             seen += 1
         if v is None or v.kind not in ('load', 'ref'):
             return False
+        # the buffer itself captured by reference (disjoint closure captures): (*_1).upvarN is `&self.buffer`
+        cap0 = self.captured(v)
+        if cap0 is not None and not cap0[1]:
+            return self.parent.is_buffer(cap0[0])
         flds = v.fields()
         if not flds or flds[-1] != 'buffer':
             return False
